@@ -31,10 +31,19 @@ MKEYS = {1: "log", 2: "log.extra"}
 
 
 PART0 = 1000          # tags >= PART0 are partitions (outside the Lean op language: such histories run against the dictionary only)
+# PART0+0..7: InMemoryPartition; PART0+8..15: the same eight partitions staged as OnDiskPartition; PART0+16..19: an
+# InMemoryPartition whose last value ("zz") cannot be serialised (op "memoize_bad": the write fails half way)
+NPART = 8
+BAD0 = PART0 + 2 * NPART
+
+
+def canon_tag(B):
+    """the value a reader sees: a staged partition reads back like the in-memory one with the same items"""
+    return PART0 + (B - PART0) % NPART if B is not None and PART0 <= B < BAD0 else B
 
 
 def part_items(B):
-    j = B - PART0
+    j = (B - PART0) % NPART
     return {"k1": j % 3 + 1, "k2": j % 2 + 10, "id": j}
 
 
@@ -54,7 +63,17 @@ def make_value(B):
     if cls == "part":
         from twosigma.memento.partition import InMemoryPartition
         it = part_items(B)
-        return InMemoryPartition({"k1": make_value(it["k1"]), "k2": make_value(it["k2"]), "id": it["id"]})
+        items = {"k1": make_value(it["k1"]), "k2": make_value(it["k2"]), "id": it["id"]}
+        if B >= BAD0:
+            items["zz"] = lambda: None          # not serialisable; sorts after the other keys
+            return InMemoryPartition(items)
+        if B >= PART0 + NPART:
+            from twosigma.memento.storage_filesystem import OnDiskPartition
+            p = OnDiskPartition()
+            for k, v in items.items():
+                p[k] = v
+            return p
+        return InMemoryPartition(items)
     if cls == "int":
         return 1000 + B
     if cls == "bytes":
@@ -125,8 +144,15 @@ class DictOracle:
         e, md = self.entries, self.meta
         if k == "memoize":
             if not self.ro:
-                e[(op[1], op[2])] = (op[5], op[4])
+                e[(op[1], op[2])] = (op[5], canon_tag(op[4]))
             return "ok"
+        if k == "memoize_bad":          # the write fails; the caller then forgets the call
+            if self.ro:
+                return "err:ValueError"
+            e.pop((op[1], op[2]), None)
+            for mk in [m for m in md if m[0] == op[1] and m[1] == op[2]]:
+                del md[mk]
+            return "err:unstorable"
         if k == "getm":
             return " ".join(str(e[tuple(x)][0]) if tuple(x) in e else "-" for x in op[1])
         if k == "lookread":
@@ -164,7 +190,7 @@ class DictOracle:
         if k == "rmeta":
             b = md.get((op[1], op[2], op[3]))
             return "none" if b is None else "b:%d" % b
-        if k in ("hold", "drop"):
+        if k in ("hold", "drop", "rseed"):
             return "ok"
         raise ValueError(op)
 
@@ -252,7 +278,7 @@ class World:
             lines.append("%s %d" % (k, op[1]))
         elif k in ("fall", "lsf"):
             lines.append(k)
-        elif k == "lsml":
+        elif k in ("lsml", "rseed", "memoize_bad"):
             pass            # listings with a limit are outside the model's op language (they never touch the cache)
         elif k == "wmeta":
             lines.append("wmeta %d %d %d %d" % tuple(op[1:5]))
@@ -277,6 +303,19 @@ class World:
                     self.created.append((m, B))
                 del obj
                 return "ok"
+            if k == "memoize_bad":
+                _, fn, arg, ov, B = op[:5]
+                obj = make_value(B)
+                m = self.mfns.make_memento(self.fwa[(fn, arg)], result_type=ResultType.from_object(obj), seq=0)
+                try:
+                    be.memoize(OVERRIDES[ov] if ov is not None else None, m, obj)
+                    be.forget_call(self.frh(fn, arg))      # (a backend that keeps objects as they are accepts the value)
+                    return "err:unstorable"
+                except Exception:
+                    if getattr(be, "read_only", False):
+                        raise
+                    be.forget_call(self.frh(fn, arg))
+                    return "err:unstorable"
             if k == "getm":
                 res = be.get_mementos([self.frh(*x) for x in op[1]])
                 return " ".join("-" if r is None else str(self.mid_of(r)) for r in res)
@@ -315,6 +354,10 @@ class World:
             if k == "rmeta":
                 b = be.read_metadata(self.frh(op[1], op[2]), MKEYS[op[3]])
                 return "none" if b is None else "b:%d" % int(bytes(b)[4:])
+            if k == "rseed":
+                import random as _random
+                _random.seed(op[1])
+                return "ok"
             if k == "hold":
                 if weakrefable(op[1]):
                     self.held.setdefault(op[1], make_value(op[1]))
@@ -470,10 +513,10 @@ CONFIGS = [
 
 
 def has_partition(ops):
-    return any(o[0] == "memoize" and o[4] is not None and o[4] >= PART0 for o in ops)
+    return any(o[0] in ("memoize", "memoize_bad", "rseed") and (o[0] != "memoize" or (o[4] is not None and o[4] >= PART0)) for o in ops)
 
 
-def gen_ops(rng, length, fns=None, override_rate=0.3, nvals=40, part_rate=0.0):
+def gen_ops(rng, length, fns=None, override_rate=0.3, nvals=40, part_rate=0.0, seed_rate=0.0):
     fns = fns or list(FNS)
     ops = []
     used_vals = []
@@ -490,11 +533,16 @@ def gen_ops(rng, length, fns=None, override_rate=0.3, nvals=40, part_rate=0.0):
             else:
                 B = rng.randrange(1, nvals)
                 if rng.random() < part_rate:
-                    B = PART0 + rng.randrange(0, 8)
+                    B = PART0 + rng.randrange(0, 2 * NPART)
                 used_vals.append(B)
             if rng.random() < 0.08:
                 B = None
             ov = rng.choice(list(OVERRIDES)) if rng.random() < override_rate else None
+            if part_rate and rng.random() < 0.08:
+                ops.append(["memoize_bad", fn, arg, ov, BAD0 + rng.randrange(0, 4)])
+                continue
+            if seed_rate and rng.random() < seed_rate:
+                ops.append(["rseed", rng.randrange(0, 3)])      # a body that seeds the global generator for reproducibility
             ops.append(["memoize", fn, arg, ov, B])
         elif r < 0.52:
             ops.append(["lookread", fn, arg])
